@@ -115,6 +115,24 @@ func c06One(o *out, s string, tag string) {
 			o.fail("", fmt.Sprintf("the quoted value %q arrived as %q", s, got), rp)
 		}
 	}
+	// the text BEFORE the quoted value: a bare word written directly in front of it (no blank) is not absorbed - the
+	// statement is rejected (two names in a row), never accepted with the word gone
+	for _, pre := range []string{"pre", "x", "_", "AND", "time"} {
+		text := fmt.Sprintf("SELECT v, %s%s FROM m WHERE y = 'sentinel' LIMIT 7", pre, qi)
+		o.checked()
+		q, err := influxql.ParseQuery(text)
+		if s == "pre" || tag == "replay" {
+			addParseQueryCase(o, text, nil)
+		}
+		if err == nil {
+			o.fail("C06-word-absorbed", fmt.Sprintf("the bare word %q directly before the quoted identifier %s vanished: %q parsed as %s", pre, qi, text, q.String()), rp)
+		}
+		text = fmt.Sprintf("SELECT v FROM m WHERE y = %s%s LIMIT 7", pre, qs)
+		o.checked()
+		if q, err := influxql.ParseQuery(text); err == nil {
+			o.fail("", fmt.Sprintf("the bare word %q directly before the quoted string %s: %q is accepted as %s", pre, qs, text, q.String()), rp)
+		}
+	}
 	// as an identifier
 	{
 		text := fmt.Sprintf("SELECT v FROM %s WHERE y = 'sentinel' LIMIT 7", qi)
